@@ -117,6 +117,10 @@ GuardExit(e) ==
 Sample(e) ==
   /\ st # Idle /\ st.status # "run" /\ e.ev = "sample"
   /\ IF e.atoms <= MaxAtoms /\ e.pairs <= MaxPairs /\ (e.limit < 0 \/ e.heap <= e.limit) THEN TRUE
+     \* known finding F5: the heap is above its limit by no more than the bytes that substr calls on INLINE atoms
+     \* copied (the harness counts only that call site, field f5); anything beyond that is an unexplained excess
+     ELSE IF e.atoms <= MaxAtoms /\ e.pairs <= MaxPairs /\ e.f5 > 0 /\ e.heap - e.f5 <= e.limit
+          THEN Report("cap:F5", [case |-> e.case, variant |-> e.variant], e)
      ELSE Report("cap", [case |-> e.case, variant |-> e.variant], e)
   /\ l' = l + 1
   /\ UNCHANGED << st, grp, gst, cnt >>
